@@ -22,6 +22,7 @@
 #ifndef CFGNAME
 #define CFGNAME "sse2"
 #endif
+static bool g_verbose = false;   // set by the replay runner
 namespace rr {
 using namespace Fastor;
 template<typename T> struct tn;
